@@ -7,6 +7,11 @@ package main
 //	           before typed decoding (tie of the tree model)
 //	op "cfg":  config.NewConfiguration (real Configuration struct, real decode hooks, real schema validation)
 //	op "validate": config.ValidateConfig on the file alone
+//	op "leaf": parser.New(...).Load into a probe struct with typed fields (string, int, bool, duration, nested, list)
+//	           with the decode hooks NewConfiguration uses: how one scalar arrives at a leaf of a given type
+//	op "yaml": how gopkg.in/yaml.v3 reads the text of an environment variable (what env.go toRealType does)
+//	op "history": several config.NewConfiguration loads one after the other in THIS process; every result is dumped
+//	           when it is returned and again after all later loads
 //
 // Environment variables are set in-process under a private prefix, in the order given by the case; every load
 // is repeated (Go map iteration order is random and the loader goes through maps), all distinct outcomes
@@ -17,7 +22,11 @@ import (
 	"errors"
 	"os"
 	"sort"
+	"strconv"
 	"strings"
+	"time"
+
+	"github.com/go-viper/mapstructure/v2"
 
 	"gopkg.in/yaml.v3"
 
@@ -38,7 +47,135 @@ type c20Probe struct {
 	X1 any `koanf:"x1"`
 }
 
+type c20Typed struct {
+	S string        `koanf:"s"`
+	I int           `koanf:"i"`
+	B bool          `koanf:"b"`
+	D time.Duration `koanf:"d,string"`
+	N struct {
+		S string `koanf:"s"`
+		I int    `koanf:"i"`
+	} `koanf:"n"`
+	L []string `koanf:"l"`
+	P *string  `koanf:"p,omitempty"`
+}
+
 func init() { families["config"] = runConfig }
+
+// c20Scalar reports a YAML scalar as the model wants it: strings, integers, booleans as such, floats with the text
+// mapstructure's weak decoding would give them, everything else by kind
+func c20Scalar(v any) any {
+	switch t := v.(type) {
+	case nil, string, bool, int:
+		return t
+	case int64:
+		return t
+	case uint64:
+		return t
+	case float64:
+		return map[string]any{"$float": strconv.FormatFloat(t, 'f', -1, 64)}
+	case map[string]any, []any:
+		return map[string]any{"$collection": true}
+	default:
+		return map[string]any{"$other": true}
+	}
+}
+
+func c20Dump(cfg *config.Configuration) any {
+	raw, err := yaml.Marshal(cfg)
+	if err != nil {
+		return "err:marshal"
+	}
+
+	var tree any
+	if err = yaml.Unmarshal(raw, &tree); err != nil {
+		return "err:marshal"
+	}
+
+	return tree
+}
+
+func c20WriteFile(content string) (string, error) {
+	tf, err := os.CreateTemp("", "verif-c20-*.yaml")
+	if err != nil {
+		return "", err
+	}
+
+	defer tf.Close()
+
+	if _, err = tf.WriteString(content); err != nil {
+		return "", err
+	}
+
+	return tf.Name(), nil
+}
+
+// c20History: loads[i] = {file?, env}; returns what every load returned at that time ("then") and what the very same
+// objects hold after all loads ("now")
+func c20History(c map[string]any) (any, error) {
+	var (
+		then []any
+		cfgs []*config.Configuration
+	)
+
+	for _, l := range getArr(c, "loads") {
+		load := obj(l)
+
+		c20ClearEnv()
+
+		for _, e := range getArr(load, "env") {
+			kv := getStrs(map[string]any{"kv": e}, "kv")
+			if err := os.Setenv(c20Prefix+kv[0], kv[1]); err != nil {
+				return nil, err
+			}
+		}
+
+		file := ""
+
+		if content, ok := load["file"].(string); ok {
+			name, err := c20WriteFile(content)
+			if err != nil {
+				return nil, err
+			}
+
+			defer os.Remove(name)
+
+			file = name
+		}
+
+		func() {
+			defer func() {
+				if r := recover(); r != nil {
+					then = append(then, "panic")
+					cfgs = append(cfgs, nil)
+				}
+			}()
+
+			cfg, err := config.NewConfiguration(config.EnvVarPrefix(c20Prefix), config.ConfigurationPath(file))
+			if err != nil {
+				then = append(then, c20ErrKind(err))
+				cfgs = append(cfgs, nil)
+
+				return
+			}
+
+			then = append(then, c20Dump(cfg))
+			cfgs = append(cfgs, cfg)
+		}()
+	}
+
+	now := make([]any, len(cfgs))
+
+	for i, cfg := range cfgs {
+		if cfg == nil {
+			now[i] = then[i]
+		} else {
+			now[i] = c20Dump(cfg)
+		}
+	}
+
+	return map[string]any{"then": then, "now": now}, nil
+}
 
 func c20ClearEnv() {
 	for _, kv := range os.Environ() {
@@ -120,17 +257,32 @@ func c20LoadOnce(c map[string]any, file string) (out any) {
 			return c20ErrKind(err)
 		}
 
-		raw, err := yaml.Marshal(cfg)
-		if err != nil {
-			return "err:marshal"
+		return c20Dump(cfg)
+	}
+
+	if getStr(c, "op") == "leaf" {
+		probe := c20Typed{}
+
+		opts := []parser.Option{
+			parser.WithEnvPrefix(c20Prefix),
+			parser.WithDecodeHookFunc(mapstructure.StringToTimeDurationHookFunc()),
+			parser.WithDecodeHookFunc(mapstructure.StringToSliceHookFunc(",")),
+		}
+		if file != "" {
+			opts = append(opts, parser.WithConfigFile(file))
 		}
 
-		var tree any
-		if err = yaml.Unmarshal(raw, &tree); err != nil {
-			return "err:marshal"
+		if err := parser.New(opts...).Load(&probe); err != nil {
+			return c20ErrKind(err)
 		}
 
-		return tree
+		res := map[string]any{"s": probe.S, "i": probe.I, "b": probe.B, "d": probe.D.String(), "n.s": probe.N.S,
+			"n.i": probe.N.I, "l": probe.L}
+		if probe.P != nil {
+			res["p"] = *probe.P
+		}
+
+		return res
 	}
 
 	probe := c20Probe{}
@@ -163,6 +315,23 @@ func c20LoadOnce(c map[string]any, file string) (out any) {
 func runConfig(c map[string]any) (any, error) {
 	c20ClearEnv()
 	defer c20ClearEnv()
+
+	switch getStr(c, "op") {
+	case "history":
+		return c20History(c)
+	case "yaml":
+		res := []any{}
+
+		for _, raw := range getStrs(c, "raw") {
+			var parsed map[string]any
+
+			yaml.Unmarshal([]byte("val: "+raw), &parsed) //nolint:errcheck
+
+			res = append(res, c20Scalar(parsed["val"]))
+		}
+
+		return res, nil
+	}
 
 	file := ""
 
